@@ -61,6 +61,33 @@ THEOREMS = [
     "OllamaVerif.C04.op_preserves_ShowInv",
     "OllamaVerif.C04.history_listed_complete_and_shown_fixed",
     "OllamaVerif.C04.op_preserves_NameInv_fixedAlias",
+    # round 7: the frame property along every history; OLLAMA_NOPRUNE; MESSAGE layers
+    "OllamaVerif.C04.history_frame_fixed",
+    "OllamaVerif.C04.pullLayers_blob_mono",
+    "OllamaVerif.C04.pull_noPrune_keeps_every_blob",
+    "OllamaVerif.C04.startup_noPrune",
+    "OllamaVerif.C04.gcOld_noPrune",
+    "OllamaVerif.C04.noPrune_witness",
+    "OllamaVerif.C04.messages_witness",
+    # what each operation does to its own target (manifest-level specification)
+    "OllamaVerif.C04.copy_spec",
+    "OllamaVerif.C04.delete_spec",
+    "OllamaVerif.C04.pull_spec",
+    "OllamaVerif.C04.create_spec",
+    # review (notes/review/C04.md): the target is the requested name up to letter case, hence the frame property
+    # stated on the REQUEST; non-vacuity of the history theorems on the repaired tree (a history with a successful
+    # pull, from the empty store); the size guard PullOk is needed; failed create with every guard discharged
+    "OllamaVerif.C04.resolveName_equalFold",
+    "OllamaVerif.C04.pullTarget_equalFold",
+    "OllamaVerif.C04.targets_equalFold",
+    "OllamaVerif.C04.op_frame_request_fixed",
+    "OllamaVerif.C04.empty_Inv",
+    "OllamaVerif.C04.empty_ShowInv",
+    "OllamaVerif.C04.litterOk_pull_witness",
+    "OllamaVerif.C04.history_listed_shown_instance",
+    "OllamaVerif.C04.pull_size_witness",
+    "OllamaVerif.C04.pull_size_breaks_NameInv",
+    "OllamaVerif.C04.failed_create_changes_nothing_repaired",
     # the guard about auto-detected layers (N2): met by every `from` create, void once N2 is repaired, decidable
     "OllamaVerif.C04.apartOp_of_from",
     "OllamaVerif.C04.apartOp_of_fixKeep",
@@ -85,6 +112,35 @@ THEOREMS = [
     "OllamaVerif.Tie.C04.serve_startup_sequence",
 ]
 OVERLAY = {"server/zz_verif_c04_test.go": "server/zz_verif_c04_test.go"}
+
+# Branches of the model that the theorems talk about, named by the driver from what the REAL code did
+# (`branchCounters`, `res_*`, `show_*`): the check fails closed (`correspondence-coverage`) when the generator of
+# this run never reached one of them — the L1 comparison would then say nothing about it.
+REQUIRED_BRANCHES = [
+    # every operation of the alphabet, with each of its results
+    "res_upload_h200", "res_upload_h201", "res_upload_h400",
+    "res_create_s", "res_create_e400", "res_create_e500",
+    "res_copy_h200", "res_copy_h404", "res_delete_h200", "res_delete_h404", "res_delete_h500",
+    "res_prune_ok", "res_prune_skip", "res_pull_s", "res_pull_e500",
+    "op_plant", "op_corrupt", "op_dashify", "op_litter", "op_litterman", "op_noprune",
+    # create: base layers, overrides (drop-then-store per media type), auto-detected layers, the replaced manifest
+    "br_create_fresh", "br_create_replaced", "br_create_old_layer_removed", "br_create_old_layer_kept_in_use",
+    "br_create_old_layer_kept_noprune", "br_create_template_override", "br_create_system_override",
+    "br_create_params", "br_create_license", "br_create_messages", "br_create_messages_over_old_messages",
+    "br_create_bad_template", "br_create_auto_template_layer", "br_create_auto_params_layer",
+    # delete / copy / pull
+    "br_delete_replaced", "br_delete_old_layer_removed", "br_delete_old_layer_kept_in_use",
+    "br_delete_removed_directories", "br_copy_fresh", "br_copy_over_existing", "br_copy_same",
+    "br_copy_404_made_directories", "br_pull_fresh", "br_pull_replaced", "br_pull_old_layer_removed",
+    "br_pull_layer_cache_hit", "br_pull_layer_fetched", "br_pull_failed_leaves_orphans",
+    # start-up sequence: fixBlobs renames, PruneLayers removes per name class, PruneDirectory, OLLAMA_NOPRUNE
+    "br_fixblobs_renamed", "br_prune_removed_files", "br_prune_removed_directories", "prune_checked",
+    "noprune_checked_prune", "noprune_checked_pull",
+    "prune_saw_nonblob_partial", "prune_saw_nonblob_sha256-other", "prune_saw_nonblob_other",
+    "prune_saw_nonblob_colon-legacy",
+    # listing / show, sharing
+    "show_h200", "steps_with_shared_blobs", "steps_removing_blobs", "steps_mixed_spelling",
+]
 
 
 SERVE_SEQUENCE = ["fixBlobs(blobsDir)", "envconfig.NoPrune()", "Manifests(false)", "PruneLayers()",
@@ -162,6 +218,13 @@ def run(ctx):
     if rc != 0:
         ctx.violation("driver-failed", "", out[-1500:], no_input=True)
     st = ctx.read_stats(outdir)
+    if not ctx.replay:
+        missing = [b for b in REQUIRED_BRANCHES if st.get(b, 0) == 0]
+        ctx.coverage["model_branches_required"] = len(REQUIRED_BRANCHES)
+        ctx.coverage["model_branches_reached"] = len(REQUIRED_BRANCHES) - len(missing)
+        if missing and rc == 0:
+            ctx.violation("correspondence-coverage", "",
+                          "branches of the model never exercised by this run's histories: " + ", ".join(missing), no_input=True)
     ctx.coverage["variant_under_test"] = {k: bool(st.get("variant_" + k, 0)) for k in ("fixAlias", "fixResolve", "fixReturn", "fixKeep", "fixPullName")}
     ctx.l1(outdir)
     ctx.classify(ctx.l2(outdir))
